@@ -19,6 +19,7 @@ import random
 from .. import ezspref as X
 from .. import vloop, ncpsim, ncpmodel, appharness
 from ..runner import Acc
+from .. import logmode
 from ..contracts import install_status_contract
 
 PROPERTY = "C12"
@@ -142,7 +143,7 @@ def run_shard(desc) -> Acc:
 
     import bellows.zigbee.application as A
 
-    logging.disable(logging.CRITICAL)
+    logmode.apply(desc)
     acc = Acc()
     install_status_contract(acc)
     V = desc["version"]
